@@ -291,6 +291,9 @@ func c17GenFile(r *rand.Rand, req *Request, dir string, idx int, big bool, bound
 			for i := 0; i <= r.Intn(2); i++ {
 				k := "x-p" + strconv.Itoa(i)
 				v := c17NameP(r, 10)
+				if plainNames {
+					v = "plain value " + strconv.Itoa(i)
+				}
 				cd.Add(k, v)
 				f.extras = append(f.extras, [2]string{k, v})
 			}
@@ -574,6 +577,12 @@ func TestVerif_C17_mpwrite(t *testing.T) {
 		var mapKey string
 		var reqVals, clVals []string
 		mode := r.Intn(10)
+		// every case belongs to at most one class of known finding: client-level fields are
+		// not combined with ordered pairs, exotic names not with either
+		withClient := r.Intn(8) == 0
+		if withClient && (mode < 5 || mode == 9) {
+			mode = 5 + r.Intn(4)
+		}
 		if mode < 5 || mode == 9 { // ordered
 			for j := 0; j < r.Intn(5); j++ {
 				k := c17Str(r, 8)
@@ -606,7 +615,7 @@ func TestVerif_C17_mpwrite(t *testing.T) {
 				}
 			}
 		}
-		if r.Intn(8) == 0 {
+		if withClient {
 			if mapKey == "" {
 				mapKey = "cm"
 			}
@@ -619,7 +628,7 @@ func TestVerif_C17_mpwrite(t *testing.T) {
 		}
 		files := make([]c17File, 0, nf)
 		for j := 0; j < nf; j++ {
-			files = append(files, c17GenFile(r, req, dir, i*10+j, r.Intn(6) == 0, b, false))
+			files = append(files, c17GenFile(r, req, dir, i*10+j, r.Intn(6) == 0, b, len(clVals) > 0 || (len(pairs) > 0 && len(reqVals) > 0)))
 		}
 		chunked := r.Intn(3) == 0
 		if chunked {
